@@ -26,7 +26,7 @@ import tempfile
 from vlib.core import Acc
 from vlib import yamltext as yt
 
-VALUE_KINDS = ["int", "str", "list", "map", "eager", "lazy", "typed", "eagerseq"]
+VALUE_KINDS = ["int", "str", "list", "map", "eager", "lazy", "typed", "eagerseq", "bareitem"]
 HEAD_FORMS = ["tagmap", "tagseq", "bare", "typemap"]
 TAIL_FORMS = HEAD_FORMS + ["typeargs"]
 KEYS = ["k", "m"]
@@ -65,6 +65,8 @@ def value_py(kind, form=None):
         return vp.VItemL([1, 2], {"c": [3]})
     if kind == "eagerseq":
         return vp.VItemE([10, [20]], {"d": {"e": 1}}, 30)
+    if kind == "bareitem":
+        return vp.VItemL()
     raise ValueError(kind)
 
 
@@ -80,6 +82,8 @@ def value_node(kind, flow):
     if kind == "eagerseq":
         return yt.seq([yt.py([10, [20]], flow), yt.py({"d": {"e": 1}}, flow), yt.py(30, flow)],
                       tag="!VItemE", flow=flow)
+    if kind == "bareitem":
+        return yt.scalar("", tag="!VItemL")
     if kind == "typed":
         return yt.mapping([("__type__", yt.scalar("verif_plugins.VItemL")),
                            ("c", yt.py([3], flow))], flow=flow)
@@ -102,6 +106,21 @@ def norm(value):
     if value is None or type(value) in (bool, int, float, str):
         return [type(value).__name__, value]
     return ["other", type(value).__name__]
+
+
+def items_in(value, found):
+    """The nested tag objects inside an argument value"""
+    import verif_plugins as vp
+
+    if isinstance(value, vp.ITEM_CLASSES):
+        found.append(value)
+        value = [value.args, value.kwargs]
+    if isinstance(value, dict):
+        value = list(value.values())
+    if isinstance(value, (list, tuple)):
+        for inner in value:
+            items_in(inner, found)
+    return found
 
 
 def expected_call(element):
@@ -270,6 +289,23 @@ def judge(case, result, error, log, attempts):
                     "element %d (%s) constructed with target %s, the next element is %s"
                     % (pos, record.cls, type(record.target).__name__,
                        type(want_target).__name__))
+    # "exactly the configured arguments": a nested tag is an object of its own, made while
+    # this document was loaded - not one that another element or an earlier load got
+    import verif_plugins as vp
+
+    owners = {}
+    for record, pos in zip(log, expect_positions):
+        if elements[pos].get("alias"):
+            continue   # an alias repeats the anchored node, nested objects included
+        for item in items_in([record.args, record.kwargs], []):
+            if not any(item is made for made in vp.ITEMS):
+                return ("nested-tag-object-from-elsewhere:" + forms[pos],
+                        "element %d (%s) got the nested %r, which was not constructed "
+                        "while loading this document" % (pos, record.cls, item))
+            if owners.setdefault(id(item), pos) != pos:
+                return ("nested-tag-object-shared:" + forms[pos],
+                        "elements %d and %d share one nested object %r"
+                        % (owners[id(item)], pos, item))
     if fail is not None:
         if len(attempts) != 1 or attempts[0][0] != elements[fail]["cls"]:
             return ("failing-constructor-calls:" + forms[fail],
@@ -550,7 +586,7 @@ def run(ctx):
     ctx.pmap(shard, shards, chunksize=1)
     ctx.meta.update(
         rule="YAML documents with a pipeline of n elements: every assignment of the forms "
-             "%r (tail also 'typeargs' = __type__ with __args__) to the positions x 6 "
+             "%r (tail also 'typeargs' = __type__ with __args__) to the positions x the "
              "rotations of the argument values %r (two arguments per element) x "
              "lazy/eager classes alternating over positions (2 parities) x %r notation "
              "(quick: parity 0 with block, parity 1 with flow; thorough: 2 x 2) x "
